@@ -21,3 +21,462 @@ Proof.
   rewrite sheet_pnl, sheet_win_rate, sheet_profit_factor.
   rewrite wr_close_refl, pf_close_refl. rewrite !andb_true_r. apply near_eq. reflexivity.
 Qed.
+
+(* =================================================================================================== *)
+(** * The general link: whatever [corr_b] accepts on a case inside the input requirements,
+      [prop_b] accepts                                                                                 *)
+(* =================================================================================================== *)
+From Coq Require Import Lia Qabs Permutation.
+From BV Require Corr.C17.
+Local Open Scope Q_scope.
+
+Lemma near_scale_morph : forall sc sc' a b, sc == sc' -> C17.near sc a b = true -> C17.near sc' a b = true.
+Proof.
+  intros sc sc' a b E. rewrite !near_iff. unfold tolq. rewrite !Qabs'_Qabs, E. exact (fun H => H).
+Qed.
+
+(** the model's sheet of a history IS the specification's sheet *)
+Lemma sheet_sound : forall scp ps t o,
+  sheet_matches scp (tsg_generate (tsg_run ps (tsg_init t))) o = sheet_ok scp ps o.
+Proof.
+  intros. unfold sheet_matches, sheet_ok. rewrite sheet_pnl, sheet_win_rate, sheet_profit_factor.
+  reflexivity.
+Qed.
+
+Lemma tsg_run_snoc : forall l x g, tsg_run (l ++ [x]) g = tsg_update (tsg_run l g) x.
+Proof. intros. unfold tsg_run. rewrite fold_left_app. reflexivity. Qed.
+
+Lemma is_neg_qc : forall r, is_neg (C17.qc r) = is_neg_q r.
+Proof. intro r. unfold is_neg, is_neg_q. change 0%Qc with (C17.qc 0). apply Qcltb_qc. Qed.
+
+Lemma dataset_sound : forall sc1 sc2 rs o,
+  C17.obs_matches_gen false sc1 sc2 (ds_run (map C17.qc rs)) o = true -> C17.obs_inv o = true ->
+  dataset_ok sc1 sc2 rs o = true.
+Proof.
+  intros sc1 sc2 rs o H Hi. unfold dataset_ok. destruct rs as [|r rs].
+  - cbn [map] in H. change (ds_run []) with ds_default in H. exact (default_sound_gen _ _ _ _ H).
+  - unfold qc. apply obs_sound; [discriminate|exact H|exact Hi].
+Qed.
+
+Lemma obs_rets_snoc : forall seen p r, pi_ret p = Some r -> obs_rets (seen ++ [p]) = obs_rets seen ++ [r].
+Proof.
+  intros seen p r E. unfold obs_rets. rewrite flat_map_app. cbn [flat_map]. rewrite E, app_nil_r. reflexivity.
+Qed.
+
+(** what the observation-fed generator holds after the positions [seen] *)
+Definition sheet_inv (t0 : Z) (seen : list pos_in) (g : tsg) : Prop :=
+  g_start g = t0 /\
+  pr_raw (g_pr g) = spec_pnl (map pos_of seen) /\
+  pr_total (g_pr g) = ds_run (map C17.qc (obs_rets seen)) /\
+  pr_losses (g_pr g) = ds_run (map C17.qc (filter is_neg_q (obs_rets seen))).
+
+Lemma spec_pnl_snoc : forall l p, spec_pnl (l ++ [p]) = (spec_pnl l + p_pnl p)%Qc.
+Proof. intros. unfold spec_pnl. rewrite map_app. cbn [map]. apply sumQc_snoc. Qed.
+
+Lemma sheet_inv_step : forall t0 seen g p r, sheet_inv t0 seen g -> pi_ret p = Some r ->
+  sheet_inv t0 (seen ++ [p]) (tsg_update_obs g p r).
+Proof.
+  intros t0 seen g p r (I1 & I2 & I3 & I4) E. unfold sheet_inv, tsg_update_obs, pr_update_r.
+  cbn [g_start g_pr pr_raw pr_total pr_losses]. rewrite (obs_rets_snoc _ _ _ E).
+  repeat split.
+  - exact I1.
+  - rewrite map_app. cbn [map]. rewrite spec_pnl_snoc, I2. reflexivity.
+  - rewrite I3, map_app. cbn [map]. symmetry. apply ds_run_snoc.
+  - rewrite filter_app. cbn [filter]. unfold qc. rewrite is_neg_qc. destruct (is_neg_q r).
+    + rewrite I4, map_app. cbn [map]. symmetry. apply ds_run_snoc.
+    + rewrite app_nil_r. exact I4.
+Qed.
+
+Lemma sheet_run_sound : forall t0 sc1 sc2 rest seen gx g steps,
+  forallb pos_in_ok rest = true ->
+  gx = tsg_run (map pos_of seen) (tsg_init t0) -> sheet_inv t0 seen g ->
+  corr_sheet sc1 sc2 gx g rest steps = true -> prop_sheet t0 sc1 sc2 seen rest steps = true.
+Proof.
+  intros t0 sc1 sc2. induction rest as [|p rest IH]; intros seen gx g steps Hok Hgx Hinv H.
+  - destruct steps; [reflexivity|discriminate H].
+  - cbn [forallb] in Hok. apply andb_true_iff in Hok. destruct Hok as [Hp Hok].
+    destruct steps as [|[[sh go]|] steps']; cbn [corr_sheet] in H; [discriminate H| |].
+    2:{ destruct steps'; [rewrite Hp in H|]; discriminate H. }
+    destruct (pi_ret p) as [r|] eqn:Er; [|discriminate H].
+    apply andb_true_iff in H. destruct H as [H Hrest].
+    apply andb_true_iff in H. destruct H as [H Hgen].
+    apply andb_true_iff in H. destruct H as [Hret Hsheet].
+    pose proof (sheet_inv_step _ _ _ _ _ Hinv Er) as Hinv'.
+    assert (Hgx' : tsg_update gx (pos_of p) = tsg_run (map pos_of (seen ++ [p])) (tsg_init t0)).
+    { rewrite Hgx, map_app. cbn [map]. symmetry. apply tsg_run_snoc. }
+    cbn [prop_sheet]. rewrite (IH _ _ _ _ Hok Hgx' Hinv' Hrest), Hret.
+    rewrite Hgx', sheet_sound in Hsheet. rewrite Hsheet.
+    destruct Hinv' as (J1 & J2 & J3 & J4).
+    unfold gen_matches in Hgen. rewrite J1, J2, J3, J4 in Hgen.
+    cbn [tsg_update_obs g_now] in Hgen.
+    apply andb_true_iff in Hgen. destruct Hgen as [Hgen G7].
+    apply andb_true_iff in Hgen. destruct Hgen as [Hgen G6].
+    apply andb_true_iff in Hgen. destruct Hgen as [Hgen G5].
+    apply andb_true_iff in Hgen. destruct Hgen as [Hgen G4].
+    apply andb_true_iff in Hgen. destruct Hgen as [Hgen G3].
+    apply andb_true_iff in Hgen. destruct Hgen as [G1 G2].
+    rewrite Z.eqb_sym in G1, G2. rewrite G1, G2.
+    rewrite (Qeq_bool_sym' _ _ G3).
+    rewrite (dataset_sound _ _ _ _ G4 G6), (dataset_sound _ _ _ _ G5 G7). reflexivity.
+Qed.
+
+(* ---- the single-function cases -------------------------------------------------------------------------- *)
+
+Lemma Qceqb_qc0 : forall x, Qceqb (C17.qc x) 0 = Qeq_bool x 0.
+Proof.
+  intro x. unfold Qceqb. change (this 0%Qc) with 0. unfold C17.qc. cbn [this Q2Qc].
+  rewrite Qred_correct. reflexivity.
+Qed.
+
+Lemma uq_qabs_nonneg : forall x, Qle_bool 0 x = true -> C17.uq (qabs (C17.qc x)) == x.
+Proof.
+  intros x H. unfold qabs. change 0%Qc with (C17.qc 0). rewrite Qcltb_qc, H. cbn [negb]. apply uq_qc.
+Qed.
+
+Lemma uq_qabs_neg : forall x, Qle_bool 0 x = false -> C17.uq (qabs (C17.qc x)) == - x.
+Proof.
+  intros x H. unfold qabs. change 0%Qc with (C17.qc 0). rewrite Qcltb_qc, H. cbn [negb].
+  unfold C17.uq, Qcopp. cbn [this Q2Qc]. rewrite Qred_correct.
+  change (this (C17.qc x)) with (C17.uq (C17.qc x)). rewrite uq_qc. reflexivity.
+Qed.
+
+Lemma win_rate_sound : forall wins total r,
+  wr_close (win_rate_calc (qc wins) (qc total)) r = true ->
+  (if Qle_bool 0 wins && Qle_bool wins total then
+     if Qeq_bool total 0 then match r with None => true | _ => false end
+     else match r with Some v => near 1 (wins / total) v | None => false end
+   else true) = true.
+Proof.
+  intros wins total r H. destruct (Qle_bool 0 wins && Qle_bool wins total) eqn:D; [|reflexivity].
+  apply andb_true_iff in D. destruct D as [D1 D2].
+  unfold win_rate_calc, qc in H. rewrite Qceqb_qc0 in H.
+  destruct (Qeq_bool total 0) eqn:E.
+  - destruct r; [discriminate H|reflexivity].
+  - destruct r as [v|]; [|discriminate H]. cbn [wr_close] in H. unfold near, uq in *.
+    refine (near_morph _ _ _ _ _ _ (Qeq_refl v) H).
+    assert (T : Qle_bool 0 total = true).
+    { apply Qle_bool_iff. apply Qle_bool_iff in D1, D2. eapply Qle_trans; eassumption. }
+    rewrite uq_div, (uq_qabs_nonneg _ D1), (uq_qabs_nonneg _ T). reflexivity.
+Qed.
+
+Lemma profit_factor_sound : forall profits losses r,
+  match profit_factor_calc (qc profits) (qc losses), r with
+  | Some (PFVal a), Some (OPFVal b) => near (uq a) (uq a) b
+  | m, o => pf_close m o
+  end = true ->
+  (if Qle_bool 0 profits && Qle_bool losses 0 then
+     match r with
+     | None => Qeq_bool profits 0 && Qeq_bool losses 0
+     | Some OPFMax => Qeq_bool losses 0 && negb (Qeq_bool profits 0)
+     | Some OPFMin => Qeq_bool profits 0 && negb (Qeq_bool losses 0)
+     | Some (OPFVal v) => negb (Qeq_bool profits 0) && negb (Qeq_bool losses 0) &&
+                          near (profits / - losses) (profits / - losses) v
+     end
+   else true) = true.
+Proof.
+  intros profits losses r H.
+  destruct (Qle_bool 0 profits && Qle_bool losses 0) eqn:D; [|reflexivity].
+  apply andb_true_iff in D. destruct D as [D1 D2].
+  unfold profit_factor_calc, qc in H. rewrite !Qceqb_qc0 in H.
+  destruct (Qeq_bool profits 0) eqn:EP; destruct (Qeq_bool losses 0) eqn:EL; cbn [andb negb] in *.
+  - destruct r as [[| |v]|]; try discriminate H; reflexivity.
+  - destruct r as [[| |v]|]; try discriminate H; reflexivity.
+  - destruct r as [[| |v]|]; try discriminate H; reflexivity.
+  - destruct r as [[| |v]|]; try discriminate H. unfold near, uq in *.
+    assert (NL : Qle_bool 0 losses = false).
+    { destruct (Qle_bool 0 losses) eqn:Z; [|reflexivity]. exfalso.
+      apply Qle_bool_iff in Z, D2. assert (losses == 0) by (apply Qle_antisym; assumption).
+      apply Qeq_bool_iff in H0. congruence. }
+    assert (E : C17.uq (qabs (C17.qc profits) / qabs (C17.qc losses))%Qc == profits / - losses).
+    { rewrite uq_div, (uq_qabs_nonneg _ D1), (uq_qabs_neg _ NL). reflexivity. }
+    apply (near_scale_morph _ _ _ _ E). refine (near_morph _ _ _ _ _ E (Qeq_refl v) H).
+Qed.
+
+(* ---- the trading summary ----------------------------------------------------------------------------------- *)
+
+Lemma nodup_str_NoDup : forall l, nodup_str l = true -> NoDup l.
+Proof.
+  induction l as [|x t IH]; intro H; [constructor|].
+  cbn [nodup_str] in H. apply andb_true_iff in H. destruct H as [H1 H2]. constructor.
+  - intro Hin. apply negb_true_iff in H1.
+    assert (E : existsb (String.eqb x) t = true).
+    { apply existsb_exists. exists x. split; [exact Hin|apply String.eqb_refl]. }
+    congruence.
+  - apply IH. exact H2.
+Qed.
+
+Lemma upd_idx_some : forall {V} (m : imap V) i f,
+  (i < List.length m)%nat -> exists m', imap_update_idx m i f = Some m'.
+Proof.
+  intros V m. induction m as [|[k v] m IH]; intros i f H; cbn [List.length] in H; [lia|].
+  destruct i as [|i]; cbn [imap_update_idx]; [eauto|].
+  destruct (IH i f) as [m' E]; [lia|]. rewrite E. cbn. eauto.
+Qed.
+
+Lemma upd_key_some : forall {V} (m : imap V) k f,
+  In k (map fst m) -> exists m', imap_update_key m k f = Some m'.
+Proof.
+  intros V m. induction m as [|[k' v] m IH]; intros k f H; [destruct H|].
+  cbn [imap_update_key]. destruct (String.eqb k' k) eqn:E; [eauto|].
+  cbn [map fst In] in H. destruct H as [H|H].
+  - subst k'. rewrite String.eqb_refl in E. discriminate E.
+  - destruct (IH k f H) as [m' E']. rewrite E'. cbn. eauto.
+Qed.
+
+Lemma sgen_run_snoc : forall l o s0,
+  sgen_run (l ++ [o]) s0 = match sgen_run l s0 with Some s => sgen_step s o | None => None end.
+Proof.
+  induction l as [|x l IH]; intros o s0; cbn [app sgen_run].
+  - destruct (sgen_step s0 o); reflexivity.
+  - destruct (sgen_step s0 x); [apply IH|reflexivity].
+Qed.
+
+Lemma ops_of_addressed : forall j k ops, ops_of j k (map sop_of ops) = addressed j k ops.
+Proof.
+  intros j k. induction ops as [|o ops IH]; [reflexivity|].
+  unfold addressed in *. cbn [map flat_map].
+  destruct o as [i p|key p|i tot fr t|key tot fr t|t]; cbn [sop_of ops_of]; try exact IH.
+  - destruct (Nat.eqb (N.to_nat i) j); cbn [app]; rewrite IH; reflexivity.
+  - destruct (String.eqb key k); cbn [app]; rewrite IH; reflexivity.
+Qed.
+
+Definition conv (a : option (Q * Q)) : option (Qc * Qc) :=
+  option_map (fun b => (qc (fst b), qc (snd b))) a.
+
+Lemma bal_conv : forall j k ops a,
+  bal_of j k (map sop_of ops) (conv a) = conv (last_balance j k a ops).
+Proof.
+  intros j k. unfold bal_of, last_balance. induction ops as [|o ops IH]; intro a; [reflexivity|].
+  cbn [map fold_left].
+  destruct o as [i p|key p|i tot fr t|key tot fr t|t]; cbn [sop_of step_asset]; try apply IH.
+  - destruct (Nat.eqb (N.to_nat i) j); [apply (IH (Some (tot, fr)))|apply IH].
+  - destruct (String.eqb key k); [apply (IH (Some (tot, fr)))|apply IH].
+Qed.
+
+Lemma bal_eqb_conv : forall x o, bal_eqb (conv x) o = true -> obal_eqb x o = true.
+Proof.
+  intros [[a b]|] [[c d]|] H; unfold conv in H; cbn [option_map fst snd bal_eqb] in H;
+    cbn [obal_eqb]; try discriminate H; try reflexivity.
+  apply andb_true_iff in H. destruct H as [H1 H2]. unfold uq, qc in *.
+  apply Qeq_bool_iff in H1, H2. rewrite uq_qc in H1, H2.
+  apply andb_true_intro. split; apply Qeq_bool_iff; assumption.
+Qed.
+
+Lemma nth_with_index : forall {A} (l : list A) n j,
+  nth_error (with_index n l) j = option_map (fun x => ((n + j)%nat, x)) (nth_error l j).
+Proof.
+  intros A l. induction l as [|x l IH]; intros n j; [destruct j; reflexivity|].
+  destruct j as [|j]; cbn [with_index nth_error option_map].
+  - rewrite Nat.add_0_r. reflexivity.
+  - rewrite IH. replace (S n + j)%nat with (n + S j)%nat by lia. reflexivity.
+Qed.
+
+Lemma with_index_length : forall {A} (l : list A) n, List.length (with_index n l) = List.length l.
+Proof. intros A l. induction l; intro n; cbn; [reflexivity|rewrite IHl; reflexivity]. Qed.
+
+(** transfer a pointwise comparison from one left-hand list to another of the same length *)
+Lemma list_match_transfer : forall {A A' B} (f : A -> B -> bool) (g : A' -> B -> bool) l l' obs,
+  List.length l = List.length l' ->
+  (forall j a a' b, nth_error l j = Some a -> nth_error l' j = Some a' ->
+                    nth_error obs j = Some b -> f a b = true -> g a' b = true) ->
+  list_match f l obs = true -> list_match g l' obs = true.
+Proof.
+  intros A A' B f g l. induction l as [|a l IH]; intros l' obs HL HP H.
+  - destruct l'; [|discriminate HL]. destruct obs; [reflexivity|discriminate H].
+  - destruct l' as [|a' l']; [discriminate HL|]. destruct obs as [|b obs]; [discriminate H|].
+    cbn [list_match] in *. apply andb_true_iff in H. destruct H as [H1 H2].
+    apply andb_true_intro. split.
+    + apply (HP 0%nat a a' b); try reflexivity. exact H1.
+    + apply IH; [cbn in HL; lia| |exact H2].
+      intros j x x' y E1 E2 E3. apply (HP (S j)); assumption.
+Qed.
+
+Section Summary.
+  Variables (t0 : Z) (insts : list string) (assets : list (string * option (Q * Q))).
+  Hypothesis NDi : nodup_str insts = true.
+  Hypothesis NDa : nodup_str (map fst assets) = true.
+
+  Let I0 : imap tsg := map (fun k => (k, tsg_init t0)) insts.
+  Let A0 : imap agen := map (fun ka => (fst ka, conv (snd ka))) assets.
+  Let s_init : sgen := init_sgen t0 insts assets.
+
+  Lemma keys_I0 : map fst I0 = insts.
+  Proof. unfold I0. rewrite map_map. cbn [fst]. apply map_id. Qed.
+  Lemma keys_A0 : map fst A0 = map fst assets.
+  Proof. unfold A0. rewrite map_map. cbn [fst]. reflexivity. Qed.
+
+  Lemma init_insts : sg_insts s_init = I0.
+  Proof.
+    unfold s_init, init_sgen, sgen_init. cbn [sg_insts]. apply imap_collect_nodup.
+    fold I0. rewrite keys_I0. apply nodup_str_NoDup. exact NDi.
+  Qed.
+  Lemma init_assets : sg_assets s_init = A0.
+  Proof.
+    unfold s_init, init_sgen, sgen_init. cbn [sg_assets]. apply imap_collect_nodup.
+    fold conv. fold A0. rewrite keys_A0. apply nodup_str_NoDup. exact NDa.
+  Qed.
+
+  (** the model state reached after the updates [done] *)
+  Lemma reached : forall done s, sgen_run (map sop_of done) s_init = Some s ->
+    (forall j, nth_error (sg_insts s) j =
+       option_map (fun k => (k, tsg_run (addressed j k done) (tsg_init t0))) (nth_error insts j)) /\
+    (forall j, nth_error (sg_assets s) j =
+       option_map (fun ka => (fst ka, conv (last_balance j (fst ka) (snd ka) done))) (nth_error assets j)).
+  Proof.
+    intros done s H.
+    assert (N1 : NoDup (map fst (sg_insts s_init))).
+    { rewrite init_insts, keys_I0. apply nodup_str_NoDup. exact NDi. }
+    assert (N2 : NoDup (map fst (sg_assets s_init))).
+    { rewrite init_assets, keys_A0. apply nodup_str_NoDup. exact NDa. }
+    destruct (summary_histories _ _ _ N1 N2 H) as (_ & Hi & Ha). split; intro j.
+    - rewrite Hi, init_insts. unfold I0. rewrite nth_error_map.
+      destruct (nth_error insts j) as [k|]; cbn [option_map]; [|reflexivity].
+      rewrite ops_of_addressed. reflexivity.
+    - rewrite Ha, init_assets. unfold A0. rewrite nth_error_map.
+      destruct (nth_error assets j) as [[k a]|]; cbn [option_map fst snd]; [|reflexivity].
+      rewrite bal_conv. reflexivity.
+  Qed.
+
+  Lemma nth_length_eq : forall {A B} (l : list A) (l' : list B),
+    (forall j, nth_error l j = None <-> nth_error l' j = None) -> List.length l = List.length l'.
+  Proof.
+    intros A B l. induction l as [|a l IH]; intros l' H.
+    - destruct l' as [|b l']; [reflexivity|]. specialize (H 0%nat). cbn in H.
+      destruct H as [H _]. specialize (H eq_refl). discriminate H.
+    - destruct l' as [|b l'].
+      + specialize (H 0%nat). cbn in H. destruct H as [_ H]. specialize (H eq_refl). discriminate H.
+      + cbn [List.length]. f_equal. apply IH. intro j. exact (H (S j)).
+  Qed.
+
+  Lemma step_sound : forall scp times done s so,
+    sgen_run (map sop_of done) s_init = Some s ->
+    summary_matches scp times (sgen_generate s) so = true ->
+    summary_ok scp insts assets done so = true.
+  Proof.
+    intros scp times done s so Hrun H. destruct (reached _ _ Hrun) as [Hi Ha].
+    unfold summary_matches in H. apply andb_true_iff in H. destruct H as [H HA].
+    apply andb_true_iff in H. destruct H as [_ HI].
+    unfold summary_ok. apply andb_true_intro. split.
+    - refine (list_match_transfer _ _ _ _ _ _ _ HI).
+      + unfold sgen_generate. cbn [su_insts]. rewrite map_length, with_index_length.
+        apply nth_length_eq. intro j. rewrite Hi. destruct (nth_error insts j); cbn; split; congruence.
+      + intros j a a' b E1 E2 _ F. unfold sgen_generate in E1. cbn [su_insts] in E1.
+        rewrite nth_error_map, Hi in E1. rewrite nth_with_index in E2. cbn [Nat.add] in E2.
+        destruct (nth_error insts j) as [k|]; cbn [option_map] in E1, E2; [|discriminate E1].
+        injection E1 as <-. injection E2 as <-. cbn [fst snd] in *.
+        rewrite sheet_sound in F. exact F.
+    - refine (list_match_transfer _ _ _ _ _ _ _ HA).
+      + unfold sgen_generate. cbn [su_assets]. rewrite with_index_length.
+        apply nth_length_eq. intro j. rewrite Ha. destruct (nth_error assets j); cbn; split; congruence.
+      + intros j a a' b E1 E2 _ F. unfold sgen_generate in E1. cbn [su_assets] in E1.
+        rewrite Ha in E1. rewrite nth_with_index in E2. cbn [Nat.add] in E2.
+        destruct (nth_error assets j) as [[k a0]|]; cbn [option_map] in E1, E2; [|discriminate E1].
+        injection E1 as <-. injection E2 as <-. cbn [fst snd] in *.
+        apply andb_true_iff in F. destruct F as [F1 F2]. rewrite F1. cbn [andb].
+        apply bal_eqb_conv. exact F2.
+  Qed.
+
+  Lemma keys_reached : forall done s, sgen_run (map sop_of done) s_init = Some s ->
+    List.length (sg_insts s) = List.length insts /\ map fst (sg_insts s) = insts /\
+    List.length (sg_assets s) = List.length assets /\ map fst (sg_assets s) = map fst assets.
+  Proof.
+    intros done s H. destruct (reached _ _ H) as [Hi Ha].
+    assert (K1 : map fst (sg_insts s) = insts).
+    { rewrite <- keys_I0. unfold I0.
+      apply (nth_spec_keys _ _ (fun j k _ => tsg_run (addressed j k done) (tsg_init t0))).
+      intro j. rewrite Hi, nth_error_map. destruct (nth_error insts j); reflexivity. }
+    assert (K2 : map fst (sg_assets s) = map fst assets).
+    { rewrite <- keys_A0.
+      apply keys_of_nth. intro j. rewrite Ha. unfold A0. rewrite nth_error_map.
+      destruct (nth_error assets j) as [[k a]|]; cbn [option_map fst snd]; [right; eauto|left; reflexivity]. }
+    repeat split; try assumption.
+    - rewrite <- K1, map_length. reflexivity.
+    - rewrite <- (map_length fst assets), <- K2, map_length. reflexivity.
+  Qed.
+
+  Lemma step_defined : forall done s o,
+    sgen_run (map sop_of done) s_init = Some s ->
+    addr_ok (List.length insts) (List.length assets) insts (map fst assets) o = true ->
+    sgen_step s (sop_of o) <> None.
+  Proof.
+    intros done s o Hrun Hok. destruct (keys_reached _ _ Hrun) as (L1 & K1 & L2 & K2).
+    destruct o as [i p|key p|i tot fr t|key tot fr t|t]; cbn [sop_of sgen_step addr_ok] in *.
+    - apply Nat.ltb_lt in Hok. rewrite <- L1 in Hok.
+      destruct (upd_idx_some (sg_insts s) (N.to_nat i) (fun g => tsg_update g (pos_of p)) Hok) as [m E].
+      rewrite E. discriminate.
+    - apply existsb_exists in Hok. destruct Hok as [x [Hin E]]. apply String.eqb_eq in E. subst x.
+      rewrite <- K1 in Hin.
+      destruct (upd_key_some (sg_insts s) key (fun g => tsg_update g (pos_of p)) Hin) as [m E].
+      rewrite E. discriminate.
+    - apply Nat.ltb_lt in Hok. rewrite <- L2 in Hok.
+      destruct (upd_idx_some (sg_assets s) (N.to_nat i) (fun _ => Some (qc tot, qc fr)) Hok) as [m E].
+      rewrite E. discriminate.
+    - apply existsb_exists in Hok. destruct Hok as [x [Hin E]]. apply String.eqb_eq in E. subst x.
+      rewrite <- K2 in Hin.
+      destruct (upd_key_some (sg_assets s) key (fun _ => Some (qc tot, qc fr)) Hin) as [m E].
+      rewrite E. discriminate.
+    - discriminate.
+  Qed.
+
+  Lemma summary_run_sound : forall scp times rest done s steps r,
+    sgen_run (map sop_of done) s_init = Some s ->
+    forallb (addr_ok (List.length insts) (List.length assets) insts (map fst assets)) rest = true ->
+    forallb pos_in_ok (all_pos rest) = true ->
+    corr_summary scp times s rest steps = Some r ->
+    prop_summary scp insts assets done rest steps = true.
+  Proof.
+    intros scp times. induction rest as [|o rest IH]; intros done s steps r Hrun Haddr Hpos H.
+    - destruct steps; [reflexivity|discriminate H].
+    - cbn [forallb] in Haddr. apply andb_true_iff in Haddr. destruct Haddr as [Ha Haddr].
+      unfold all_pos in Hpos. cbn [flat_map] in Hpos. rewrite forallb_app in Hpos.
+      apply andb_true_iff in Hpos. destruct Hpos as [Hp Hpos].
+      pose proof (step_defined _ _ _ Hrun Ha) as Hdef.
+      destruct steps as [|[so|] steps']; cbn [corr_summary] in H; [discriminate H| |].
+      + destruct (sgen_step s (sop_of o)) as [s'|] eqn:E; [|discriminate H].
+        rewrite Hp in H. cbn [andb] in H.
+        destruct (summary_matches scp times (sgen_generate s') so) eqn:M; [|discriminate H].
+        assert (Hrun' : sgen_run (map sop_of (done ++ [o])) s_init = Some s').
+        { rewrite map_app. cbn [map]. rewrite sgen_run_snoc, Hrun. exact E. }
+        cbn [prop_summary]. rewrite (step_sound _ _ _ _ _ Hrun' M). cbn [andb].
+        exact (IH _ _ _ _ Hrun' Haddr Hpos H).
+      + exfalso. destruct steps'; [|discriminate H].
+        destruct (sgen_step s (sop_of o)); [|exact (Hdef eq_refl)].
+        rewrite Hp in H. discriminate H.
+  Qed.
+End Summary.
+
+(* ---- the theorem ---------------------------------------------------------------------------------------------- *)
+
+Theorem oracle_sound : forall c : case, wf_case c = true -> corr_b c = true -> prop_b c = true.
+Proof.
+  intros [t0 ps g0 sh0 steps|mode t0 insts assets ops s0 steps final|wins total r|profits losses r|pnl price qty r]
+         Hwf H; cbn [corr_b prop_b wf_case] in *.
+  - (* CSheet *)
+    apply andb_true_iff in H. destruct H as [H Hrun]. apply andb_true_iff in H. destruct H as [Hg0 Hs0].
+    change (tsg_init t0) with (tsg_run [] (tsg_init t0)) in Hs0 at 1. rewrite sheet_sound in Hs0.
+    rewrite Hs0. cbn [andb].
+    unfold gen_matches in Hg0. cbn [tsg_init g_start g_now g_pr pr_default pr_raw pr_total pr_losses] in Hg0.
+    apply andb_true_iff in Hg0. destruct Hg0 as [Hg0 _].
+    apply andb_true_iff in Hg0. destruct Hg0 as [Hg0 _].
+    apply andb_true_iff in Hg0. destruct Hg0 as [Hg0 G5].
+    apply andb_true_iff in Hg0. destruct Hg0 as [Hg0 G4].
+    apply andb_true_iff in Hg0. destruct Hg0 as [_ G3].
+    change (uq 0%Qc) with 0 in G3. rewrite (Qeq_bool_sym' _ _ G3).
+    rewrite (default_sound_gen _ _ _ _ G4), (default_sound_gen _ _ _ _ G5). cbn [andb].
+    apply (sheet_run_sound t0 _ _ ps [] (tsg_init t0) (tsg_init t0) steps Hwf eq_refl); [|exact Hrun].
+    unfold sheet_inv. cbn. repeat split; reflexivity.
+  - (* CSummary *)
+    apply andb_true_iff in Hwf. destruct Hwf as [Hwf Haddr].
+    apply andb_true_iff in Hwf. destruct Hwf as [Hwf NDa].
+    apply andb_true_iff in Hwf. destruct Hwf as [Hpos NDi].
+    apply andb_true_iff in H. destruct H as [H0 H].
+    set (scp := pnl_scale (all_pos ops)) in *.
+    apply andb_true_intro. split.
+    + apply (step_sound t0 insts assets NDi NDa scp (N.eqb mode 0) [] _ s0 eq_refl H0).
+    + destruct (corr_summary scp (N.eqb mode 0) (init_sgen t0 insts assets) ops steps) as [r|] eqn:E;
+        [|discriminate H].
+      exact (summary_run_sound t0 insts assets NDi NDa scp (N.eqb mode 0) ops [] _ steps r eq_refl Haddr Hpos E).
+  - apply win_rate_sound. exact H.
+  - apply profit_factor_sound. exact H.
+  - exact H.
+Qed.
